@@ -30,6 +30,7 @@ import z3
 from . import sym, interp, ghost as gh, contract as ct
 from .sym import Path, set_path, PathAbort, Escape, term, formula
 
+VALUE_ERRORS = (ValueError, AssertionError, ArithmeticError, LookupError)
 QUICK_TIMEOUT_MS = int(os.environ.get("PYVC_TIMEOUT_MS", "20000"))
 
 
@@ -79,9 +80,23 @@ def discharge(P, extra_hyps, goal, timeout_ms):
             s.add(h)
         s.add(z3.Not(goal))
         r = s.check()
+        rounds = 0
+        while r == z3.sat and rounds < REFINE_ROUNDS:
+            # counterexample-guided refinement of the uninterpreted products: every lemma added
+            # is a true instance of field / integer multiplication, so `unsat` stays a proof and
+            # a model that survives is exact on every product that occurs
+            lem = _product_lemmas(P, s.model())
+            if not lem:
+                break
+            rounds += 1
+            for f in lem:
+                s.add(f)
+            r = s.check()
         if r == z3.unsat:
-            return "proved", time.time() - t0, None, "z3"
+            return "proved", time.time() - t0, None, "z3" if rounds == 0 else "z3+refine%d" % rounds
         if r == z3.sat:
+            if _product_lemmas(P, s.model()):
+                return "unknown", time.time() - t0, None, "z3 (abstract countermodel not concretised in %d rounds)" % rounds
             return "refuted", time.time() - t0, model_dict(s.model()), "z3"
         smt = s.to_smt2()
     finally:
@@ -92,6 +107,34 @@ def discharge(P, extra_hyps, goal, timeout_ms):
     if v == "unsat":
         return "proved", time.time() - t0, None, "cvc5"
     return "unknown", time.time() - t0, None, "z3+cvc5"
+
+
+REFINE_ROUNDS = 25
+
+
+def _product_lemmas(P, m):
+    """Instances of exact multiplication at the model's argument values, for every
+    uninterpreted product application the model gets wrong."""
+    out = []
+    p = P.p
+    ev = lambda t: m.eval(t, model_completion=True)
+    for (u, a, b) in list(P._fmul.values()):
+        try:
+            a0, b0, u0 = ev(a).as_long(), ev(b).as_long(), ev(u).as_long()
+        except Exception:
+            continue
+        if (a0 * b0) % p != u0:
+            out.append(z3.Implies(a == a0, u == (a0 * b) % p))
+            out.append(z3.Implies(b == b0, u == (b0 * a) % p))
+    for (t, a, b) in list(P._imul.values()):
+        try:
+            a0, b0, t0 = ev(a).as_long(), ev(b).as_long(), ev(t).as_long()
+        except Exception:
+            continue
+        if a0 * b0 != t0:
+            out.append(z3.Implies(a == a0, t == a0 * b))
+            out.append(z3.Implies(b == b0, t == b0 * a))
+    return out
 
 
 def _cvc5(smt, timeout_ms):
@@ -170,6 +213,20 @@ def run_config(contract, cfg, facets="VCSTRN", prime=None, tier="quick", max_pat
                     obs.append((nm, [], f, hyps))
             with _entry_state(c):
                 raises = contract.raises(c, *args, **kwargs)
+            if outcome[0] == "exc" and cfg.get("mode") == "g0" and "G" in facets \
+                    and isinstance(outcome[1], VALUE_ERRORS):
+                # C07: under a false guard nothing may raise because of the values it meets
+                P.solver.push()
+                for t in [v.h for v in g.opnds] + list(g.publics):
+                    P.solver.add(z3.And(t > -(prime // 2), t < prime // 2))
+                rr = P.solver.check()
+                mdl = model_dict(P.solver.model()) if rr == z3.sat else None
+                P.solver.pop()
+                ob = dict(name="G.inert[%s]" % type(outcome[1]).__name__, path=psig, backend="z3", s=0.0,
+                          verdict="refuted" if rr == z3.sat else ("proved" if rr == z3.unsat else "unknown"))
+                if mdl:
+                    ob["model"] = {k: v for k, v in mdl.items() if k.startswith(("s_", "k_"))}
+                res["obligations"].append(ob)
             if outcome[0] == "exc":
                 e = outcome[1]
                 res["raise_paths"] += 1
@@ -224,6 +281,9 @@ def run_config(contract, cfg, facets="VCSTRN", prime=None, tier="quick", max_pat
                     sig = (g.trace_sig(start), _result_sig(c, r))
                     secret = _secret_coefs(g, start)
                     res["sigs"][psig] = (repr(sig), secret)
+                    if P.solver.check() == z3.sat:
+                        res.setdefault("path_models", {})[psig] = {
+                            k: v for k, v in model_dict(P.solver.model()).items() if k.startswith(("s_", "k_"))}
             # discharge
             for nm, extra, goal, hyps_override in obs:
                 if hyps_override is not None:
@@ -237,6 +297,10 @@ def run_config(contract, cfg, facets="VCSTRN", prime=None, tier="quick", max_pat
                 if model is not None:
                     ob["model"] = {k: v for k, v in model.items()
                                    if k.startswith(("s_", "k_", "a_"))}
+                    if nm.startswith(("S.", "E.")) and outcome[0] == "ret":
+                        # adversarial values of the witnesses this function allocates itself, in order
+                        ob["forge"] = [model.get(str(e.var.a)) for e in g.trace[start:]
+                                       if isinstance(e, gh.Alloc) and e.var.kind == "priv"]
                 res["obligations"].append(ob)
         except (KeyboardInterrupt, MemoryError):
             raise
